@@ -21,6 +21,9 @@ ASSUMPTIONS = [
     "length fails like a connection error; 'slow response' is a late release by the stub",
     "response bodies are ASCII (strings.TrimSpace is modelled for ASCII white space), header values contain "
     "no newline; Go int arithmetic does not overflow",
+    "services are honest about what they stored: the client returns a 200 body verbatim (it does not check "
+    "that it names the hash and size sent); 200 bodies naming another hash/size are generated, modelled and "
+    "compared, but the property's locator clause is asserted only when the 200 answers seen were honest",
     "C11_enough_acceptors needs every 200 answer to carry a non-negative replica count (the property's "
     "answer alphabet has 1..2 or no header)",
 ]
@@ -112,6 +115,16 @@ ODD_HDR = ["0", "3", " 2", "+1", "-1", "x", "2x", "", "99999999999999999999", "\
 
 
 def _ok_tok(rng, h, size, tag, odd):
+    if odd and rng.random() < 0.2:
+        # a 200 whose body is a locator for ANOTHER hash or size, or no locator at all (outside the
+        # property's honest-service reading: the client returns it verbatim, it does not check)
+        r = rng.random()
+        if r < 0.4:
+            h = "%032x" % rng.getrandbits(128)
+        elif r < 0.8:
+            size = size + rng.choice([1, 7, 1000])
+        else:
+            return tok(200, rng.choice(GOOD_HDR), rng.choice([b"OK", b"stored\n", b"+3+A", b"\n"]))
     hdr = rng.choice(ODD_HDR) if odd and rng.random() < 0.5 else rng.choice(GOOD_HDR + ["1"])
     return tok(200, hdr, _locator_body(rng, h, size, tag))
 
@@ -193,7 +206,8 @@ def gen_random_put(rng, big_ok=False):
                 md5 = h = hashlib.md5(data).hexdigest()
         if rng.random() < 0.2:
             h = "%032x" % rng.getrandbits(128)
-        entry = f"puthr:{n}"
+        # one PutHR in eight gets a stream that fails after its data instead of ending with EOF
+        entry = f"puthrx:{n}" if rng.random() < 0.125 else f"puthr:{n}"
     elif r < 0.45:
         h = "%032x" % rng.getrandbits(128)
     svcs = _services(rng, nw, nro, kind)
@@ -219,7 +233,7 @@ def gen_seq(rng):
     service answered in an earlier put (503, errors, ...) must not matter for a later one."""
     while True:
         first = gen_random_put(rng)
-        if not first.startswith("put puthr"):
+        if not first.startswith("put puthr"):  # (also excludes puthrx)
             break
     c = parse_put(first)
     parts = [first[4:]]
@@ -336,6 +350,14 @@ def gen_load(rng):
     return f"load {rng.choice('001')} {';'.join(items) or '-'}"
 
 
+def gen_disc(rng):
+    if rng.random() < 0.75:
+        return "disc api " + gen_load(rng).split(" ", 2)[2]
+    n = rng.choice([0, 1, 2, 3, 12])
+    uris = [f"{rng.choice(['http', 'https'])}://k{rng.randrange(5)}.example:{rng.choice([25107, 443])}" for _ in range(n)]
+    return "disc uris " + (",".join(uris) or "-")
+
+
 def generate(rng, tier):
     cases = []
     if tier == "quick":
@@ -344,12 +366,14 @@ def generate(rng, tier):
         cases += [gen_seq(rng) for _ in range(600)]
         cases += [gen_upl(rng) for _ in range(600)]
         cases += [gen_load(rng) for _ in range(300)]
+        cases += [gen_disc(rng) for _ in range(200)]
     else:
         cases += gen_exhaustive(rng, 3, 2, sample=0.25)
         cases += [gen_random_put(rng, i % 3300 == 7) for i in range(40000)]
         cases += [gen_seq(rng) for _ in range(12000)]
         cases += [gen_upl(rng) for _ in range(6000)]
         cases += [gen_load(rng) for _ in range(3000)]
+        cases += [gen_disc(rng) for _ in range(1500)]
     return cases
 
 
@@ -382,13 +406,13 @@ def _sent(c):
     entry, data = c["entry"], c["data"]
     if entry == "putb":
         return hashlib.md5(data).hexdigest(), data, False, False
-    if entry.startswith("puthr:"):
-        n = int(entry[6:])
+    if entry.startswith("puthr"):
+        n = int(entry.split(":")[1])
         if n > BLOCKSIZE:
             return c["hash"], b"", False, True
         if n <= 0:
             return c["hash"], b"", False, False
-        bad = hashlib.md5(data).hexdigest() != c["hash"] or len(data) != n
+        bad = hashlib.md5(data).hexdigest() != c["hash"] or len(data) != n or entry.startswith("puthrx:")
         return c["hash"], data, bad, False
     return c["hash"], data, False, False
 
@@ -466,6 +490,12 @@ def oracle_put(case, impl):
             return f"nil error with confirmed replicas {confirmed} < want {want}"
         if want > 0 and loc not in bodies:
             return "returned locator is not the body of a 200 answer"
+        # "a locator issued by a service for exactly that hash and size": checked directly whenever
+        # the services of this case issued such locators in all the 200 answers the client saw
+        url_hash, sent, _, _ = _sent(c)
+        names = lambda b: re.match(rb"^%s\+%d(\+.*)?$" % (re.escape(url_hash.encode()), len(sent)), b) is not None
+        if want > 0 and bodies and all(names(b) for b in bodies) and not names(loc):
+            return "returned locator does not name the hash and size of the block that was written"
     else:
         if confirmed >= want:
             return f"InsufficientReplicasError although {confirmed} >= {want} replicas were confirmed"
@@ -557,6 +587,10 @@ def oracle(case, impl):
         return oracle_upl(case, impl)
     if case.startswith("load "):
         return oracle_load(case, impl)
+    if case.startswith("disc api "):
+        return oracle_load("load 0 " + case.split(" ", 2)[2], impl)
+    if case.startswith("disc uris "):
+        return None if impl.startswith("L=") else "service discovery failed: " + impl[:200]
     return None
 
 
@@ -599,6 +633,11 @@ def describe(cases, impl):
             for o in s["outs"]:
                 t = parse_tok(o)
                 inc(d["answers"], t[0] if t[0] != "f" else str(t[1]))
+        url_hash, sent, _, _ = _sent(p)
+        pat = re.compile(rb"^%s\+%d(\+.*)?$" % (re.escape(url_hash.encode()), len(sent)))
+        if any(t[0] == "f" and t[1] == 200 and not pat.match(t[3][:4096].strip(WS))
+               for sv in p["svcs"] for t in map(parse_tok, sv["outs"])):
+            d["puts_with_200_body_for_another_hash_or_size"] = d.get("puts_with_200_body_for_another_hash_or_size", 0) + 1
         if r:
             f = r.split(" ")
             inc(d["results"], f[0])
@@ -613,6 +652,8 @@ def describe(cases, impl):
 def neighbours(case, rng):
     if case.startswith("seq "):
         return [gen_seq(rng) for _ in range(10)]
+    if case.startswith("disc "):
+        return [gen_disc(rng) for _ in range(5)]
     if not case.startswith("put "):
         return [gen_upl(rng) if case.startswith("upl") else gen_load(rng) for _ in range(5)]
     c = parse_put(case)
